@@ -60,6 +60,30 @@ type Prog struct {
 	// Names[i] is the index used in the name of definition i (nil = i): two
 	// definitions in different files may share one bare name.
 	Names []int
+	// Paths[i], when set, is the path of file i relative to /m (e.g.
+	// "d/f1.thrift"): two files may share one base name in different directories.
+	// Files that include others are expected to live in /m itself.
+	Paths []string
+}
+
+// PathOf is the absolute path of file i.
+func (p *Prog) PathOf(i int) string {
+	if p.Paths != nil && p.Paths[i] != "" {
+		return "/m/" + p.Paths[i]
+	}
+	return Path(i)
+}
+
+// fileNameOf is the name under which file i is known to a file including it.
+func (p *Prog) fileNameOf(i int) string {
+	if p.Paths != nil && p.Paths[i] != "" {
+		b := p.Paths[i]
+		if j := strings.LastIndex(b, "/"); j >= 0 {
+			b = b[j+1:]
+		}
+		return strings.TrimSuffix(b, ".thrift")
+	}
+	return fileName(i)
 }
 
 // NameOf returns the name of definition i in p.
@@ -82,7 +106,7 @@ func (p *Prog) qual(from, def int) string {
 	if p.Defs[def].File == from {
 		return p.NameOf(def)
 	}
-	return fileName(p.Defs[def].File) + "." + p.NameOf(def)
+	return p.fileNameOf(p.Defs[def].File) + "." + p.NameOf(def)
 }
 
 func (p *Prog) tref(from int, t TRef) string {
@@ -118,7 +142,7 @@ func (p *Prog) Render() map[string]string {
 	for f := 0; f < p.NFiles; f++ {
 		var sb strings.Builder
 		for _, inc := range p.Includes[f] {
-			fmt.Fprintf(&sb, "include \"./f%d.thrift\"\n", inc)
+			fmt.Fprintf(&sb, "include \"./%s\"\n", strings.TrimPrefix(p.PathOf(inc), "/m/"))
 		}
 		var order []int
 		if p.Order != nil && p.Order[f] != nil {
@@ -153,7 +177,7 @@ func (p *Prog) Render() map[string]string {
 				fmt.Fprintf(&sb, "service %s%s { %s fn(1: %s a) }\n", p.NameOf(i), ext, p.tref(f, d.Type), p.tref(f, d.Type))
 			}
 		}
-		out[Path(f)] = sb.String()
+		out[p.PathOf(f)] = sb.String()
 	}
 	return out
 }
@@ -180,7 +204,7 @@ func (p *Prog) reachable(from, to int) bool {
 // expressible (same file, or the target's file is included) and unambiguous.
 func (p *Prog) resolveDef(from, def int) error {
 	if !p.reachable(from, p.Defs[def].File) {
-		return invalid{fmt.Sprintf("%s references %s but does not include it", fileName(from), fileName(p.Defs[def].File))}
+		return invalid{fmt.Sprintf("%s references %s but does not include it", p.fileNameOf(from), p.fileNameOf(p.Defs[def].File))}
 	}
 	return nil
 }
@@ -203,7 +227,7 @@ func (p *Prog) typeRepr(from int, t TRef) (string, error) {
 		if !isType(d.Kind) {
 			return "", invalid{p.NameOf(t.Def) + " is not a type"}
 		}
-		s = fmt.Sprintf("%s:%s(%s)", Path(d.File), p.NameOf(t.Def), d.Kind)
+		s = fmt.Sprintf("%s:%s(%s)", p.PathOf(d.File), p.NameOf(t.Def), d.Kind)
 	}
 	if t.List {
 		s = "list<" + s + ">"
@@ -278,9 +302,9 @@ func (p *Prog) castValue(from int, v VRef, tfrom int, t TRef, depth int) (string
 			if d.Kind == Enum {
 				switch v.Int {
 				case 1:
-					return fmt.Sprintf("item:%s:%s.A=1", Path(d.File), p.NameOf(rt.Def)), nil
+					return fmt.Sprintf("item:%s:%s.A=1", p.PathOf(d.File), p.NameOf(rt.Def)), nil
 				case 5:
-					return fmt.Sprintf("item:%s:%s.B=5", Path(d.File), p.NameOf(rt.Def)), nil
+					return fmt.Sprintf("item:%s:%s.B=5", p.PathOf(d.File), p.NameOf(rt.Def)), nil
 				}
 				return "", invalid{"no such enum value"}
 			}
@@ -301,12 +325,12 @@ func (p *Prog) castValue(from int, v VRef, tfrom int, t TRef, depth int) (string
 		}
 		if !rt.List && (rt.Base == "i32" || rt.Base == "i64") {
 			// an enum item may stand where an integer is expected
-			return fmt.Sprintf("item:%s:%s.A=1", Path(e.File), p.NameOf(v.Def)), nil
+			return fmt.Sprintf("item:%s:%s.A=1", p.PathOf(e.File), p.NameOf(v.Def)), nil
 		}
 		if rt.List || rt.Base != "" || rt.Def != v.Def {
 			return "", invalid{"enum item for another type"}
 		}
-		return fmt.Sprintf("item:%s:%s.A=1", Path(e.File), p.NameOf(v.Def)), nil
+		return fmt.Sprintf("item:%s:%s.A=1", p.PathOf(e.File), p.NameOf(v.Def)), nil
 	case "const":
 		if err := p.resolveDef(from, v.Def); err != nil {
 			return "", err
@@ -356,15 +380,15 @@ func (p *Prog) Resolve() Expect {
 		sort.Ints(incs)
 		var in []string
 		for _, i := range incs {
-			in = append(in, fmt.Sprintf("%s=%s", fileName(i), Path(i)))
+			in = append(in, fmt.Sprintf("%s=%s", p.fileNameOf(i), p.PathOf(i)))
 		}
-		lines = append(lines, fmt.Sprintf("module %s includes[%s]", Path(f), strings.Join(in, ",")))
+		lines = append(lines, fmt.Sprintf("module %s includes[%s]", p.PathOf(f), strings.Join(in, ",")))
 	}
 	for i, d := range p.Defs {
 		if !reach[d.File] {
 			continue
 		}
-		head := fmt.Sprintf("%s:%s", Path(d.File), p.NameOf(i))
+		head := fmt.Sprintf("%s:%s", p.PathOf(d.File), p.NameOf(i))
 		switch d.Kind {
 		case Typedef:
 			if p.typeCycle(i, map[int]bool{}) {
@@ -433,7 +457,7 @@ func (p *Prog) Resolve() Expect {
 						break
 					}
 				}
-				par = fmt.Sprintf("%s:%s", Path(pd.File), p.NameOf(d.Parent))
+				par = fmt.Sprintf("%s:%s", p.PathOf(pd.File), p.NameOf(d.Parent))
 			}
 			lines = append(lines, fmt.Sprintf("service %s parent=%s fn(args[1 a %s] returns %s)", head, par, tr, tr))
 		}
